@@ -30,8 +30,8 @@ CHECKS["C09"] = {
              "chains exist, the only exclusions are the documented ones, one shared path-or-inline JSON/YAML parser, seed "
              "provenance (given --seed reaches the RNG first, no hash/id/time in the per-item seed), exhaustive NumPy->torch "
              "conversion. Does NOT decide numerical equality of stored and library features; that part of the property "
-             "quantifies over signal values and is out of reach of static analysis. Also: the processor collections walked per utterance are real sequences (no one-shot iterators); the per-item seed depends on the base seed and the utterance's identity only (taint analysis shared with C10, live dict views followed); as a premise, the value rule of the pre-processors (in-place variants equal the plain call) is re-established. Wave 10: the wave rspecifier is opened exactly once (it may be a pipe); np.random.seed gets --seed whenever it is given (0 included), by forward substitution; the torch wrappers hand every input to the wrapped object (C14's wrapper rule re-established)."),
-    "design_ref": "DESIGN.md §3 C09, §10.10, §10.11, §10.15",
+             "quantifies over signal values and is out of reach of static analysis. Also: the processor collections walked per utterance are real sequences (no one-shot iterators); the per-item seed depends on the base seed and the utterance's identity only (taint analysis shared with C10, live dict views followed); as a premise, the value rule of the pre-processors (in-place variants equal the plain call) is re-established. Wave 10: the wave rspecifier is opened exactly once (it may be a pipe); np.random.seed gets --seed whenever it is given (0 included), by forward substitution; the torch wrappers hand every input to the wrapped object (C14's wrapper rule re-established). Wave 11: serving an item stores nothing on the dataset object (C10's rule, shared)."),
+    "design_ref": "DESIGN.md §3 C09, §10.10, §10.11, §10.15, §10.17",
     "note": NOTE_COMMON + "pydrobert.kaldi / torch I/O are trusted to store what they are given.",
     "technique": "static analysis: forward substitution of the write's def-use chain into a pipeline normal form, argparse-dest and family attribute tables, guard enumeration, seed provenance",
 }
@@ -56,8 +56,8 @@ CHECKS["C12"] = {
              "per read equal the frames counted, the np.empty buffer is returned only through a slice bounded by the fill "
              "counter on every path, byte order / shape / expansion / warning / header-error clauses. Nothing numerical "
              "remains beyond NumPy's frombuffer, so this is close to the whole property; it is still a statement about the "
-             "code's shape, not an execution over files. Also: the NIST_1A magic is tested before any header text is converted (CFG dominance); byte order is never corrected on the output array; which G.711 table is applied is decided by value over coding x stored width x requested dtype scenarios."),
-    "design_ref": "DESIGN.md §3 C12, §10.9, §10.10",
+             "code's shape, not an execution over files. Also: the NIST_1A magic is tested before any header text is converted (CFG dominance); byte order is never corrected on the output array; which G.711 table is applied is decided by value over coding x stored width x requested dtype scenarios. Wave 11: whether a header read happens depends on sizes only, never on the bytes already read; NumPy's dtype promotion is folded in the G.711 expansion scenarios."),
+    "design_ref": "DESIGN.md §3 C12, §10.9, §10.10, §10.17",
     "note": NOTE_COMMON + "file_.read(n) is assumed to return n bytes unless the stream ends (buffered binary streams).",
     "technique": "static analysis: exhaustive literal-table comparison with ITU-T G.711, closed-form divisibility/byte-accounting with witnesses, reaching definitions on header parsing and the returned buffer",
 }
@@ -104,8 +104,8 @@ CHECKS["C14"] = {
              "spec compute.py is checked against under C02) as exact closed forms, the same column count on every return, "
              "symmetric padding, parameter name-flow without crossed wires through factory -> constructor -> attribute -> forward, "
              "matching reductions / doubling / log floor / energy, and that the wrappers delegate and re-wrap. Does NOT decide "
-             "numerical agreement to working precision, TorchScript semantics or the dither's distribution. Wave 10: the noise draw is PyTorchDither's only use of the process-wide generator over its call closure (torch.seed() re-seeds); a wrapper branch that returns without calling the wrapped object is reported; the (offset, filter) pairs from_stft_frame_computer hands over are evaluated together with what the NumPy constructor stores (checker's own interpreter, every DFT size 2..8, start bin, run length): they must be the bank's start bin and whole response."),
-    "design_ref": "DESIGN.md §3 C14, §10.15",
+             "numerical agreement to working precision, TorchScript semantics or the dither's distribution. Wave 10: the noise draw is PyTorchDither's only use of the process-wide generator over its call closure (torch.seed() re-seeds); a wrapper branch that returns without calling the wrapped object is reported; the (offset, filter) pairs from_stft_frame_computer hands over are evaluated together with what the NumPy constructor stores (checker's own interpreter, every DFT size 2..8, start bin, run length): they must be the bank's start bin and whole response. Wave 11: the torch segment walk is evaluated like its NumPy twin (DFT sizes 2..10, every start bin and run length, both power options)."),
+    "design_ref": "DESIGN.md §3 C14, §10.15, §10.17",
     "note": NOTE_COMMON + "spect.size(1) of torch.fft.rfft(x, D, 1) = D//2+1 is taken from torch's documented contract.",
     "technique": "static analysis: closed-form twin comparison with the documented geometry, 4-hop name-flow, structural reduction/wrapper rules",
 }
@@ -127,8 +127,8 @@ CHECKS["C20"] = {
              "phase-ramp closed form of circshift_fourier, the four window closed forms against NumPy's generators and their DC "
              "coefficients (fresh, un-memoised arrays), the gamma window's special cases / mode / normaliser, the ten Odeh-Evans "
              "coefficients, tail threshold, folding, sign and affinity, and the Hz<->rad inverse pair as rational functions. Does "
-             "NOT decide non-negativity, sums up to O(1/width), the 1e-6 accuracy or DFT shift identities numerically. Also: the base of t ** (order - 1) in the gamma window is floating point (dtype inference: np.arange follows its arguments, annotated parameters)."),
-    "design_ref": "DESIGN.md §3 C20, §10.10",
+             "NOT decide non-negativity, sums up to O(1/width), the 1e-6 accuracy or DFT shift identities numerically. Also: the base of t ** (order - 1) in the gamma window is floating point (dtype inference: np.arange follows its arguments, annotated parameters). Wave 11: the Gamma window is evaluated sample by sample over exact symbolic values (widths 0..6, orders 1/2/4, three peaks) and compared with the documented density."),
+    "design_ref": "DESIGN.md §3 C20, §10.10, §10.17",
     "note": NOTE_COMMON + "vis.py is outside the None-default rule (its guards are correlated across parameters; no property anchors it).",
     "technique": "static analysis: None-default data flow, effect analysis with the copy flag, closed-form and literal-table comparison, purity rule",
 }
@@ -192,8 +192,8 @@ CHECKS["C17"] = {
              "floating-point invariants of the accumulators (integral non-negative count, non-negative squares), ValueError guard "
              "first, suffix dispatch writes the whole matrix with matching readers, overwrite flag controls loading of the existing "
              "archive, default key found by a membership search from arr_0. Does NOT decide equality of the reloaded transform nor "
-             "the float32/float64 re-interpretation heuristic. Also: validity tests applied by the constructor to loaded statistics may only demand what the accumulators guarantee."),
-    "design_ref": "DESIGN.md §3 C17, §10.10",
+             "the float32/float64 re-interpretation heuristic. Also: validity tests applied by the constructor to loaded statistics may only demand what the accumulators guarantee. Wave 11: state derived from the statistics (cached flags / transforms) is refreshed wherever the statistics are written, the loader included (C16's rule, shared)."),
+    "design_ref": "DESIGN.md §3 C17, §10.10, §10.17",
     "note": NOTE_COMMON,
     "technique": "static analysis: typestate via reaching definitions, whitelist of accumulator invariants in normal form, structural save/load rules",
 }
@@ -204,8 +204,8 @@ CHECKS["C03"] = {
              "reaching the forward transform is float64/complex128; results carry the first chunk's dtype; non-floating input is "
              "refused first), that forward/inverse transforms are matching pairs under one predicate with explicit lengths, uniform "
              "filter / energy-impulse preparation, window geometry, log floor, and the finalize frame-count closed form. Does NOT "
-             "decide numerical equality with the convolution definition; the total frame count is a function of run-time counters. Also: the roll shift of the centred filters as a value in every bank-kind alternative; config.LOG_FLOOR_VALUE is read at call time. Wave 10: the frame handed back is the sum of the two half-window accumulators in every option setting, by value; compute_full refuses no input for its memory layout."),
-    "design_ref": "DESIGN.md §3 C03, §10.9, §10.11, §10.15",
+             "decide numerical equality with the convolution definition; the total frame count is a function of run-time counters. Also: the roll shift of the centred filters as a value in every bank-kind alternative; config.LOG_FLOOR_VALUE is read at call time. Wave 10: the frame handed back is the sum of the two half-window accumulators in every option setting, by value; compute_full refuses no input for its memory layout. Wave 11: a conversion with dtype=float64 on the way into compute_chunk is a promotion of the result dtype."),
+    "design_ref": "DESIGN.md §3 C03, §10.9, §10.11, §10.15, §10.17",
     "note": NOTE_COMMON + "Bank impulse responses are float64/complex128 by their documented contract.",
     "technique": "static analysis: dtype lattice (NEP 50), sibling agreement of transform branches, structural preparation rules, closed-form frame count",
 }
@@ -214,8 +214,8 @@ CHECKS["C11"] = {
     "text": ("Decides agreement of the four force_as tables with the documented names, error types on every path, stream guards "
              "before any reader, the final-cast form of each per-container reader (dtype never handed to a rescaling decoder), keyed "
              "defaults, wave reshape, and that wds_read_signal cannot raise. Does NOT decide bit-identity through third-party "
-             "decoders (soundfile, h5py, torch, scipy). Also: the soundfile type is the text after the last dot for every name (extension-idiom table with the known deviations of pathlib / os.path.splitext); the package's own SPHERE decoder reads relative to the stream position; with a dtype requested the raw-binary reader interprets the bytes as that dtype. Wave 10: no reduction without an identity is applied to the data read (a zero-length signal is read back like any other)."),
-    "design_ref": "DESIGN.md §3 C11, §10.9, §10.10, §10.15",
+             "decoders (soundfile, h5py, torch, scipy). Also: the soundfile type is the text after the last dot for every name (extension-idiom table with the known deviations of pathlib / os.path.splitext); the package's own SPHERE decoder reads relative to the stream position; with a dtype requested the raw-binary reader interprets the bytes as that dtype. Wave 10: no reduction without an identity is applied to the data read (a zero-length signal is read back like any other). Wave 11: streams are used through the file protocol only (an unguarded attribute such as .name fails for io.BytesIO)."),
+    "design_ref": "DESIGN.md §3 C11, §10.9, §10.10, §10.15, §10.17",
     "note": NOTE_COMMON,
     "technique": "static analysis: literal-table agreement, CFG guard dominance, sibling rule on reader return forms and decoder-dtype provenance",
 }
